@@ -107,6 +107,8 @@ pub enum Fam {
     Fields2 { offsets: Vec<usize> },
     /// structure-aware JSON mutations of a base that is JSON text (see `JsonPlan`)
     Json { lvl: Lvl },
+    /// all unordered pairs of `Json { lvl: Small }` mutations (two simultaneous deviations)
+    Json2,
 }
 
 const EXT: [&[u8]; 6] = [&[0x00], &[0xff], &[0x01], &[0u8; 8], &[0xffu8; 8], &[0u8; 64]];
@@ -171,6 +173,7 @@ impl Fam {
             Fam::Ext => "append",
             Fam::Fields2 { .. } => "two-length-fields",
             Fam::Json { .. } => "json-structure",
+            Fam::Json2 => "json-structure-pairs",
         }
     }
 
@@ -193,6 +196,7 @@ impl Fam {
                 n * n.saturating_sub(1) / 2 * v * v
             }
             Fam::Json { lvl } => JsonPlan::new(base, *lvl).map(|p| p.count()).unwrap_or(0),
+            Fam::Json2 => JsonPlan::new(base, Lvl::Small).map(|p| p.count2()).unwrap_or(0),
         }
     }
 
@@ -299,6 +303,7 @@ impl Fam {
                 v
             }
             Fam::Json { lvl } => JsonPlan::new(base, *lvl).expect("json base").apply(k as u64),
+            Fam::Json2 => JsonPlan::new(base, Lvl::Small).expect("json base").apply2(k as u64),
         }
     }
 }
@@ -479,9 +484,9 @@ impl JsonPlan {
                         serde_json::to_string(&b).unwrap()
                     });
                     // every array -> 10^4 elements (copies of its first element); fewer copies of a
-                    // large element, so that the document stays below ~1 MB (decoding work is
+                    // large element, so that the document stays below ~256 KB (decoding work is
                     // proportional to the input and must not be mistaken for a hang)
-                    let copies = 10_000usize.min((1 << 20) / (f.len() + 1)).max(2);
+                    let copies = 10_000usize.min((1 << 18) / (f.len() + 1)).max(2);
                     emit(&|| format!("[{}]", vec![f.as_str(); copies].join(",")));
                 }
             }
@@ -510,6 +515,50 @@ impl JsonPlan {
             _ => {}
         }
         (found, n)
+    }
+
+    /// number of unordered pairs {a, b}, a < b, of single mutations
+    pub fn count2(&self) -> u64 {
+        let n = self.count();
+        n * n.saturating_sub(1) / 2
+    }
+
+    fn pick(&self, mut k: u64) -> (&Vec<Step>, String) {
+        for (path, n) in &self.nodes {
+            if k < *n {
+                return (path, self.replacements(path, Some(k)).0.expect("replacement"));
+            }
+            k -= n;
+        }
+        panic!("json mutation index out of range");
+    }
+
+    /// pair `k` -> (a, b) with a < b; both replacements are applied when their nodes are disjoint
+    /// (otherwise the outer one wins, which repeats a single mutation)
+    pub fn apply2(&self, k: u64) -> Vec<u8> {
+        // k = b(b-1)/2 + a
+        let mut b = ((((8 * k + 1) as f64).sqrt() + 1.0) / 2.0) as u64;
+        while b * (b - 1) / 2 > k {
+            b -= 1;
+        }
+        while (b + 1) * b / 2 <= k {
+            b += 1;
+        }
+        let a = k - b * (b - 1) / 2;
+        let (pa, ra) = self.pick(a);
+        let (pb, rb) = self.pick(b);
+        let prefix = |x: &Vec<Step>, y: &Vec<Step>| x.len() <= y.len() && x.iter().zip(y.iter()).all(|(p, q)| format!("{p:?}") == format!("{q:?}"));
+        if prefix(pa, pb) {
+            return self.apply(a);
+        }
+        if prefix(pb, pa) {
+            return self.apply(b);
+        }
+        let mut root = self.root.clone();
+        *node_at_mut(&mut root, pa) = Value::String(format!("{PH}A"));
+        *node_at_mut(&mut root, pb) = Value::String(format!("{PH}B"));
+        let text = serde_json::to_string(&root).unwrap();
+        text.replacen(&format!("\"{PH}A\""), &ra, 1).replacen(&format!("\"{PH}B\""), &rb, 1).into_bytes()
     }
 
     pub fn apply(&self, mut k: u64) -> Vec<u8> {
